@@ -250,4 +250,81 @@ MarkerConfined(doc, marker) ==
   \A i \in 1..Len(doc.namestok) : ~IsSubSeqAt(marker, doc.namestok[i])
 C08_OK(ev) == VocabularyOnly(ev.doc) /\ MarkerConfined(ev.doc, ev.marker)
 C08_NT(ev) == TRUE
+
+---------------------------------------------------------------------------
+(* C05 — rectangles: soundness for any document, completeness for the box family             *)
+PureVertical == {58, 33, 9474, 9478, 9482, 9550, 9553, 9615, 9621}
+PureHorizontal == {45, 126, 95, 61, 9472, 8211, 8212, 9476, 9552, 8254, 175}
+HInterior(c) == Drawing(c) /\ c \notin PureVertical /\ c \notin {95, 8254, 175}
+VInterior(c) == Drawing(c) /\ c \notin PureHorizontal
+HBottomEdge(c) == c \in {95, 124} \/ (c >= 9601 /\ c <= 9608)       \* can stroke along the bottom edge of its cell
+HTopEdge(c) == c \in {8254, 175, 124}
+VRightEdge(c) == c = 9621
+VLeftEdge(c) == c = 9615
+CellAt(crs, row0, col0) == IF row0 + 1 \in 1..Len(crs) /\ col0 + 1 \in 1..Len(crs[row0 + 1]) THEN crs[row0 + 1][col0 + 1] ELSE SP
+\* sample points along an edge, one per half cell, in lattice units
+HSamples(x0, x1) == { x0 + 2 + 4 * i : i \in 0..((x1 - x0 - 1) \div 4) }
+VSamples(y0, y1) == { y0 + 4 + 8 * i : i \in 0..((y1 - y0 - 1) \div 8) }
+HEdgeSound(crs, x0, x1, y) == \A px \in HSamples(x0, x1) :
+  LET c == px \div CW r == y \div CH IN
+  IF y % CH # 0 THEN HInterior(CellAt(crs, r, c))
+  ELSE HBottomEdge(CellAt(crs, r - 1, c)) \/ HTopEdge(CellAt(crs, r, c))
+VEdgeSound(crs, y0, y1, x) == \A py \in VSamples(y0, y1) :
+  LET c == x \div CW r == py \div CH IN
+  IF x % CW # 0 THEN VInterior(CellAt(crs, r, c))
+  ELSE VRightEdge(CellAt(crs, r, c - 1)) \/ VLeftEdge(CellAt(crs, r, c))
+IsBoxRect(e) == IsRect(e) /\ ~HasCls(e, "filled")
+RectSoundOne(crs, e) ==
+  LET x == U(e.n[1]) y == U(e.n[2]) w == U(e.n[3]) h == U(e.n[4]) IN
+  /\ AllOnLattice(e.n) /\ w > 0 /\ h > 0 /\ x >= 0 /\ y >= 0
+  /\ HEdgeSound(crs, x, x + w, y) /\ HEdgeSound(crs, x, x + w, y + h)
+  /\ VEdgeSound(crs, y, y + h, x) /\ VEdgeSound(crs, y, y + h, x + w)
+RectSound(crs, doc) == \A i \in Idx(doc) : IsBoxRect(doc.elems[i]) => RectSoundOne(crs, doc.elems[i])
+C05s_OK(ev) == ev.doc.wf = 1 /\ RectSound(DrawCells(ev), ev.doc)
+C05s_NT(ev) == ev.doc.wf = 1 /\ \E i \in Idx(ev.doc) : IsBoxRect(ev.doc.elems[i])
+
+\* the box family.  ev.box = [k, n (offset in cells), w, h (interior size)]
+AsciiTL == {43, 46, 44}  AsciiTR == {43, 46}  AsciiBL == {43, 39, 96}  AsciiBR == {43, 39}
+BoxHz == {45, 126}  BoxSide == {124, 58, 33}
+UniTL == {9484, 9581} UniTR == {9488, 9582} UniBL == {9492, 9584} UniBR == {9496, 9583}
+UniHz == {9472, 9476} UniSide == {9474, 9482, 9478, 9550}
+DashedCp == {126, 58, 33, 9476, 9482, 9478, 9550}
+PlainLabel(c) == (Alpha(c) \/ Digit(c)) /\ ~Drawing(c)
+BoxRowsOK(rows, b) ==
+  LET k == b.k top == b.n + 1 bot == b.n + b.h + 2 L0 == k + 1 R0 == k + b.w + 2 IN
+  /\ Len(rows) = bot
+  /\ \A r \in 1..b.n : rows[r] = <<>>
+  /\ \A r \in top..bot : Len(rows[r]) = R0 /\ \A c \in 1..k : rows[r][c] = SP
+  /\ LET tl == rows[top][L0] tr == rows[top][R0] bl == rows[bot][L0] br == rows[bot][R0]
+         ascii == tl \in AsciiTL
+         sharp == tl \in {43, 9484}
+         hz == IF ascii THEN BoxHz ELSE UniHz
+         side == IF ascii THEN BoxSide ELSE UniSide IN
+     /\ (ascii => tr \in AsciiTR /\ bl \in AsciiBL /\ br \in AsciiBR) /\ (~ascii => tl \in UniTL /\ tr \in UniTR /\ bl \in UniBL /\ br \in UniBR)
+     /\ (sharp => (tr \in {43, 9488} /\ bl \in {43, 9492} /\ br \in {43, 9496}))
+     /\ (~sharp => (tr \notin {43, 9488} /\ bl \notin {43, 9492} /\ br \notin {43, 9496} /\ b.w >= 1))
+     /\ \A c \in (L0 + 1)..(R0 - 1) : rows[top][c] \in hz /\ rows[bot][c] \in hz
+     /\ \A r \in (top + 1)..(bot - 1) :
+          /\ rows[r][L0] \in side /\ rows[r][R0] \in side
+          /\ \A c \in (L0 + 1)..(R0 - 1) : rows[r][c] = SP \/ PlainLabel(rows[r][c])
+     \* a side is a '|' side: it contains a '|', and every dashed character continues a vertical stroke
+     /\ \A col \in {L0, R0} :
+          /\ (b.h >= 1 => \E r \in (top + 1)..(bot - 1) : rows[r][col] \in {124, 9474})
+          /\ \A r \in (top + 1)..(bot - 1) : rows[r][col] \in {58, 33} =>
+                (r - 1 > top /\ rows[r - 1][col] \in BoxSide) \/ (r + 1 < bot /\ rows[r + 1][col] \in BoxSide)
+BoxDashed(rows, b) == \E r \in (b.n + 1)..(b.n + b.h + 2) : \E c \in (b.k + 1)..(b.k + b.w + 2) : rows[r][c] \in DashedCp
+BoxRounded(rows, b) == rows[b.n + 1][b.k + 1] \notin {43, 9484}
+C05box_OK(ev) ==
+  LET b == ev.box R == { i \in Idx(ev.doc) : IsRect(ev.doc.elems[i]) } crs == DrawCells(ev) IN
+  /\ ev.doc.wf = 1
+  /\ BoxRowsOK(ev.rows, b)
+  /\ Cardinality(R) = 1
+  /\ LET e == ev.doc.elems[CHOOSE i \in R : TRUE] IN
+     /\ e.n[1] = (b.k * CW + 4) * MILLI /\ e.n[2] = (b.n * CH + 8) * MILLI
+     /\ e.n[3] = (b.w + 1) * CW * MILLI /\ e.n[4] = (b.h + 1) * CH * MILLI
+     /\ e.n[5] = (IF BoxRounded(ev.rows, b) THEN 4 * MILLI ELSE 0)
+     /\ (IsBroken(e) <=> BoxDashed(ev.rows, b)) /\ (IsSolid(e) <=> ~BoxDashed(ev.rows, b))
+     /\ HasCls(e, "nofill") /\ e.g = 0
+  /\ \A i \in Idx(ev.doc) : i \notin R => IsText(ev.doc.elems[i]) /\ TextMatches(crs, ev.doc.elems[i])
+  /\ NonDrawingCells(crs) \subseteq UNION { TextCovered(ev.doc.elems[i]) : i \in OfKind(ev.doc, "text") }
 =============================================================================
